@@ -95,7 +95,7 @@ def expectation(prog, files, sel_names):
     return selected_files, should
 
 
-def real_run(build, files, script, prof_mod):
+def real_run(build, files, script, prof_mod, prof_imports=False):
     d = tempfile.mkdtemp(prefix='c09r-', dir=SCRATCH_ROOT)
     try:
         for rel, text in files.items():
@@ -107,6 +107,8 @@ def real_run(build, files, script, prof_mod):
         popts = []
         for x in prof_mod:
             popts += ['-p', os.path.join(d, x[5:]) if x.startswith('PATH:') else x]
+        if prof_imports:
+            popts.append('--prof-imports')
         b = subprocess.run([PY, '-m', 'kernprof', '-l'] + popts + [script], cwd=d, env=e, capture_output=True, text=True, timeout=120)
         keys = None
         lprof = os.path.join(d, script + '.lprof')
@@ -326,6 +328,10 @@ def run(ctx):
               crafted([('from klass import HK2', 'HK2().plain(1)'), ('import klass', 'klass.kfree(2)')], ['klass']),
               crafted([('from helper import hf as h2, hg', 'h2(1) + hg(2)'), ('from helper import HK', 'HK().hm(1)')], ['PATH:helper.py']),
               crafted([('from pkgk.sub.deep import df', 'df(1)'), ('from pkgk.sub import deep as dp', 'dp.df(2)')], ['pkgk.sub']),
+              # the script itself with --prof-imports: everything its import statements bind is profiled, also the names that follow a name
+              # bound before in the same statement
+              dict(crafted([('import helper', 'helper.hg(1)'), ('import helper, other as oth2', 'oth2.of(1)'), ('from helper import hf', 'hf(2)'),
+                            ('from helper import hf, HK as HK2', 'HK2().hm(1)')], ['PATH:prog.py']), prof_imports=True),
               # a plain import of the package before a from-import out of it
               crafted([('import pkgk', 'pkgk.sf(1)'), ('from pkgk import sib', 'sib.sg(2)'), ('from pkgk.sub import deep as dp', 'dp.df(3)')], ['pkgk.sib', 'pkgk.sub.deep']),
               # look-alike selections: a name that is an imported name minus its last character(s) selects nothing
@@ -336,7 +342,7 @@ def run(ctx):
                         '    return deco_inner(n) + Local().meth(n)\n\n\ndef plain_outer(n):\n    def plain_inner(j):\n        return j - 1\n    return plain_inner(n)\n',
                         'deco_outer(1) + plain_outer(2)')])] + sample
     with cf.ThreadPoolExecutor(max_workers=12) as ex:
-        rr = list(ex.map(lambda c: real_run(build, c['files'], c['script'], c['prof_mod']), sample))
+        rr = list(ex.map(lambda c: real_run(build, c['files'], c['script'], c['prof_mod'], c.get('prof_imports', False)), sample))
     nontrivial = set()
     stats = {'runs': 0, 'F-C09a': 0, 'F-C09b': 0, 'F-C09c': 0, 'star': 0}
     for c, r in zip(sample, rr):
@@ -352,6 +358,10 @@ def run(ctx):
                     sel_names.append({'helper.py': 'helper', 'pkgk': 'pkgk', 'pkgk/sub': 'pkgk.sub', 'prog.py': '__script__'}.get(rel, '__nothing__'))
                 else:
                     sel_names.append(part)
+        if c.get('prof_imports') and '__script__' in sel_names:
+            for st in c['prog']['top_imports']:
+                node = ast.parse(st).body[0]
+                sel_names += [a.name for a in node.names] if isinstance(node, ast.Import) else [node.module]
         selected_files, should = expectation(c['prog'], c['files'], [s for s in sel_names if not s.startswith('__')])
         got = {(k[0], k[1]) for k in r['keys']}
         script_selected = '__script__' in sel_names
@@ -361,6 +371,8 @@ def run(ctx):
                 if not script_selected and fn not in ('already',):
                     ctx.fail('a function of the script is profiled although the script was not selected', {'finding_class': None, 'prof_mod': c['prof_mod'], 'function': [f, fn]})
                 continue
+            if c.get('prof_imports') and f.startswith('..'):
+                continue          # --prof-imports: the standard-library modules the script imports are profiled too, as asked
             if f not in selected_files:
                 cls = 'F-C09a' if (f == 'other.py' and 'mixed' in ' '.join(sel_names)) else None
                 if cls:
